@@ -54,7 +54,9 @@ def final_inputs(cp):
 
 def run_solver(classes, cp, request, field_names=(), answer=None, schedule_seed=None, tracer=None, use_prompt=True, sort_key=None):
     """answer(input_obj, needed_by) -> text or None (refuse)."""
-    store = I.InputStore(cp)
+    store = I.InputStore(cp)          # cp: a ConfigParser, or the path of an input file (as the CLI passes it)
+    if isinstance(cp, str):
+        cp = store.config
     out = Outcome()
     out.prompts = []
     out.initial_inputs = final_inputs(cp)
